@@ -619,6 +619,29 @@ class Evaluator:
     def ev_Dict(self, e, env, ctx):
         return {self.key_of(k, env, ctx): self.ev(v, env, ctx) for k, v in zip(e.keys, e.values)}
 
+    def _comp_envs(self, gens, env, ctx):
+        """Environments of a comprehension over enumerable values (tables the code builds itself)."""
+        if not gens:
+            yield env
+            return
+        g = gens[0]
+        it = self.ev(g.iter, env, ctx)
+        if isinstance(it, dict):
+            it = tuple(StrV(k) for k in it)
+        if not isinstance(it, tuple):
+            raise Und("comprehension over a non-enumerable value")
+        for el in it:
+            e2 = dict(env)
+            self.assign(g.target, el, e2, ctx)
+            if all(self.test(c, e2, ctx) is True for c in g.ifs) if g.ifs else True:
+                yield from self._comp_envs(gens[1:], e2, ctx)
+
+    def ev_DictComp(self, e, env, ctx):
+        return {self.key_of(e.key, e2, ctx): self.ev(e.value, e2, ctx) for e2 in self._comp_envs(e.generators, env, ctx)}
+
+    def ev_ListComp(self, e, env, ctx):
+        return tuple(self.ev(e.elt, e2, ctx) for e2 in self._comp_envs(e.generators, env, ctx))
+
     def ev_Attribute(self, e, env, ctx):
         base = self.ev(e.value, env, ctx) if not isinstance(e.value, ast.Name) or e.value.id in env else None
         if isinstance(base, ObjV):
